@@ -8,6 +8,7 @@ require (
 	github.com/openconfig/gribi v1.9.1
 	github.com/openconfig/gribigo v0.0.0
 	github.com/openconfig/ygot v0.34.0
+	google.golang.org/genproto/googleapis/rpc v0.0.0-20260319201613-d00831a3d3e7
 	google.golang.org/grpc v1.79.3
 	google.golang.org/protobuf v1.36.11
 	pgregory.net/rapid v1.3.0
@@ -25,7 +26,6 @@ require (
 	golang.org/x/net v0.55.0 // indirect
 	golang.org/x/sys v0.45.0 // indirect
 	golang.org/x/text v0.37.0 // indirect
-	google.golang.org/genproto/googleapis/rpc v0.0.0-20260319201613-d00831a3d3e7 // indirect
 	lukechampine.com/uint128 v1.3.0 // indirect
 )
 
